@@ -2,7 +2,7 @@
    valid_input = every pair has a char in U+0000..U+10FFFF and a glyph id in 1..65535;
    canon input = the input sorted and de-duplicated (what from_mappings works with). *)
 From Coq Require Import ZArith List.
-From FV Require Import Lib.RustInt C08.Model C08.Proofs C08.Iter4 C08.Fits4 C08.Var14 C08.Reader.
+From FV Require Import Lib.RustInt C08.Model C08.Proofs C08.Iter4 C08.Fits4 C08.Var14 C08.Reader C08.Iter14.
 Import ListNotations.
 Open Scope Z_scope.
 
@@ -149,6 +149,20 @@ Proof. exact cmap4_iter_asc_any_lemma. Qed.
 Theorem wf14b_reflects : forall sels, wf14b sels = true -> wf14 sels.
 Proof. exact wf14b_sound. Qed.
 
+(* ---- round 5 ---- *)
+(* Cmap14Iter / Charmap::variant_mappings (Model.cmap14_iter: per selector record, the default ranges expanded
+   to start ..= start + additionalCount as UseDefault, then the non-default mappings as Variant gid).  On well-formed
+   tables whose default and non-default entries do not overlap, it lists exactly the triples map_variant answers,
+   and each (code point, selector) occurs once. *)
+Theorem cmap14_iter_exact : forall sels, wf14 sels -> Forall dn_disjoint sels ->
+  (forall c sel v, In (c, sel, v) (cmap14_iter sels) <-> cmap14_map_variant sels c sel = Some v) /\
+  NoDup (map key (cmap14_iter sels)).
+Proof. exact cmap14_iter_exact_lemma. Qed.
+Theorem default_uvs_expansion : forall c rs, In c (default_uvs_iter rs) <-> existsb (in_range c) rs = true.
+Proof. exact in_default_uvs_iter. Qed.
+Theorem dn14b_reflects : forall sels, dn14b sels = true -> Forall dn_disjoint sels.
+Proof. exact dn14b_sound. Qed.
+
 Print Assumptions cmap4_answers.
 Print Assumptions cmap4_answers_in.
 Print Assumptions segments_partition.
@@ -175,3 +189,6 @@ Print Assumptions cmap4_lookup_out_of_array.
 Print Assumptions cmap4_map_sorted_any.
 Print Assumptions cmap4_iter_asc_any.
 Print Assumptions wf14b_reflects.
+Print Assumptions cmap14_iter_exact.
+Print Assumptions default_uvs_expansion.
+Print Assumptions dn14b_reflects.
